@@ -232,3 +232,28 @@ def is_param(fn: FunctionInfo, expr: ast.expr, node: Optional[Node], pname: str)
         return False
     srcs = value_sources(fn, expr, node)
     return bool(srcs) and all(k == "param" and p == pname for k, p in srcs)
+
+
+def none_test(e: ast.expr, want_none: bool, strict: bool = False) -> Optional[ast.expr]:
+    """X when *e* is `X is None` / `not X` (want_none) or `X is not None` / plain `X` (not want_none); strict: identity
+    tests only (a falsy value is not None)"""
+    if isinstance(e, ast.Compare) and len(e.ops) == 1 and isinstance(e.comparators[0], ast.Constant) and e.comparators[0].value is None:
+        if isinstance(e.ops[0], (ast.Is, ast.Eq) if want_none else (ast.IsNot, ast.NotEq)):
+            return e.left
+        return None
+    if strict:
+        return None
+    if want_none and isinstance(e, ast.UnaryOp) and isinstance(e.op, ast.Not):
+        return e.operand
+    if not want_none and isinstance(e, (ast.Attribute, ast.Name)):
+        return e
+    return None
+
+
+def known_not_none(an: Analysis, fn: FunctionInfo, name: ast.Name, node: Node) -> bool:
+    """is the local *name* guarded to be not None (or truthy) at *node*?"""
+    for t, tr in dominating_guards(an, fn, node):
+        a = none_test(t.ast, False) if tr else none_test(t.ast, True)
+        if isinstance(a, ast.Name) and a.id == name.id and same_name_value(fn, a, t, name, node):
+            return True
+    return False
